@@ -75,6 +75,16 @@ def Src.ack (s : Src) (i : Nat) : Src × String :=
     if i == 0 || i > m.lastOutbox then (s, "err:invalid")
     else ({ s with st := some { m with lastAcked := max m.lastAcked i }, outbox := s.outbox.filter (· != i) }, "ok")
 
+/-- the replicated ack command (applyMigrationOutboxAck): deletes exactly the acked row -/
+def Src.ackCmd (s : Src) (i : Nat) : Src × String :=
+  let s := { s with idx := s.idx + 1 }
+  if i == 0 then (s, "err:invalid")
+  else match s.st with
+    | none => (s, "ok")
+    | some m =>
+      if i > m.lastOutbox then (s, "ok")
+      else ({ s with st := some { m with lastAcked := max m.lastAcked i }, outbox := s.outbox.filter (· != i) }, "ok")
+
 /-- one apply_delta command at the target: skipped if its replay key is recorded, otherwise the
     effect and the record are written in the same batch -/
 def Tgt.applyDelta (t : Tgt) (d : Delta) : Tgt :=
